@@ -15,6 +15,8 @@ import (
 	"github.com/cometbft/cometbft/crypto/tmhash"
 	"github.com/cometbft/cometbft/libs/log"
 	tmproto "github.com/cometbft/cometbft/proto/tendermint/types"
+	tmversion "github.com/cometbft/cometbft/proto/tendermint/version"
+	"github.com/cometbft/cometbft/version"
 	tmtypes "github.com/cometbft/cometbft/types"
 	"github.com/cosmos/cosmos-sdk/baseapp"
 	codectypes "github.com/cosmos/cosmos-sdk/codec/types"
@@ -392,6 +394,9 @@ func New(o Options) *World {
 		Time:            GenesisTime.Add(6 * time.Second),
 		ProposerAddress: w.ValCons[0],
 		ValidatorsHash:  tmhash.Sum([]byte("vals")),
+		// a header that passes ValidateBasic, as every real one does (the EVM's BLOCKHASH decodes the
+		// stored headers and answers zero for one that does not)
+		Version: tmversion.Consensus{Block: version.BlockProtocol},
 	}
 	w.App.BeginBlock(abci.RequestBeginBlock{Header: w.Header, LastCommitInfo: w.CommitInfo(nil)})
 	if !o.SkipFirstBlock {
